@@ -47,9 +47,13 @@ Definition model_block (codec bs : N) (plain : list N) (sched : list N) (i : N) 
 Definition kind_of (r : ares (list N)) : N :=
   match r with AOk _ => 0 | ADone => 1 | AErr _ => 2 | AOutOfFuel => 9 end.
 
-Definition agrees (r : ares (list N)) (kind : N) (h : string) : bool :=
+(* long byte strings are written as lists of short hex literals (a single huge string literal
+   overflows coqc's stack) *)
+Definition hexcat (l : list string) : bytes := flat_map unhex l.
+
+Definition agrees (r : ares (list N)) (kind : N) (h : list string) : bool :=
   match r with
-  | AOk b => (kind =? 0) && beqb b (unhex h)
+  | AOk b => (kind =? 0) && beqb b (hexcat h)
   | ADone => kind =? 1
   | AErr _ => kind =? 2
   | AOutOfFuel => false
@@ -67,13 +71,13 @@ Definition aux_ok (codec bs : N) (plain : list N) (aux : N) : bool :=
 Fixpoint index_from {A} (i : N) (l : list A) : list (N * A) :=
   match l with [] => [] | x :: r => (i, x) :: index_from (i + 1) r end.
 
-Definition case_t := (N * N * string * list N * N * list (N * N * string))%type.
+Definition case_t := (N * N * list string * list N * N * list (N * N * list string))%type.
 
 (* disagreements: (case index, 100 * block index + 10 * impl kind + model kind); aux: (case, 7) *)
 Definition model_bad (cs : list case_t) : list (N * N) :=
   flat_map (fun ic =>
     let '(ci, (codec, bs, ph, sched, aux, results)) := ic in
-    let plain := unhex ph in
+    let plain := hexcat ph in
     (if aux_ok codec bs plain aux then [] else [(ci, 7)]) ++
     flat_map (fun r => let '(i, kind, h) := r in
                        let m := model_block codec bs plain sched i in
@@ -85,11 +89,11 @@ Definition model_bad (cs : list case_t) : list (N * N) :=
 Definition spec_bad (cs : list case_t) : list (N * N) :=
   flat_map (fun ic =>
     let '(ci, (codec, bs, ph, sched, aux, results)) := ic in
-    let plain := unhex ph in
+    let plain := hexcat ph in
     let ch := chunk bs plain in
     flat_map (fun r => let '(i, kind, h) := r in
                        let ok := match nth_error ch (N.to_nat i) with
-                                 | Some b => (kind =? 0) && beqb b (unhex h)
+                                 | Some b => (kind =? 0) && beqb b (hexcat h)
                                  | None => kind =? 1
                                  end in
                        if ok then [] else [(ci, 100 * i + 10 * kind)])
